@@ -559,7 +559,7 @@ def _gen_result(name, path, frag, acl, prio):
                                        config=R.clone(frag), reload="reload-" + name, perf=None, reload_prio=prio)
 
 
-def _run_chain(old, gens, with_other=True, other_pos=None):
+def _run_chain(old, gens, with_other=True, other_pos=None, prios="asc"):
     """gens = [(name, frag, acl)] in running order -> (files dict, generator results); a generator for another file
     runs at position other_pos (default: last) among them"""
     from annet.generators.result import RunGeneratorResult
@@ -570,7 +570,7 @@ def _run_chain(old, gens, with_other=True, other_pos=None):
     for n, (name, frag, acl) in enumerate(gens):
         if with_other and n == other_pos:
             rr.add_json_fragment(_gen_result("other", OTHER, gens[0][1], gens[0][2], 5))
-        gr = _gen_result(name, PATH, frag, acl, 10 + n)
+        gr = _gen_result(name, PATH, frag, acl, {"asc": 10 + n, "desc": 20 - n, "equal": 10, "default": 100}[prios])
         rr.add_json_fragment(gr)
         grs.append(gr)
     if with_other and other_pos >= len(gens):
@@ -625,6 +625,20 @@ def chain_case(old, g1, g2):
                                  "old=%s %s=%s %s=%s: with the other file's generator last: %s; %s: %s" % (
                                      json.dumps(old), names[0], json.dumps(first), names[1], json.dumps(second),
                                      json.dumps({k: v[0] for k, v in files.items()}, default=repr), ["first", "between"][pos], how)))
+            # the generators' reload priorities (ascending so far) decide the reload command, never the documents
+            for pr in ("desc", "equal", "default"):
+                try:
+                    files_p, _ = _run_chain(old, chain, prios=pr)
+                    same = set(files_p) == set(files) and all(R.same_value(files_p[k][0], files[k][0]) for k in files)
+                    how = "" if same else "files=%s" % json.dumps({k: v[0] for k, v in files_p.items()}, default=repr)
+                except Exception as e:  # noqa
+                    same, how = False, repr(e)
+                evals += 1
+                if not same:
+                    viol.append(({"kind": "chain-depends-on-reload-priorities", "priorities": pr},
+                                 "old=%s %s=%s %s=%s: with ascending reload priorities: %s; %s: %s" % (
+                                     json.dumps(old), names[0], json.dumps(first), names[1], json.dumps(second),
+                                     json.dumps({k: v[0] for k, v in files.items()}, default=repr), pr, how)))
         case_txt = "old=%s %s=%s %s=%s" % (json.dumps(old), names[0], json.dumps(first), names[1], json.dumps(second))
         if seq_exc is not None or chain_exc is not None:
             if (seq_exc is None) != (chain_exc is None):
